@@ -112,6 +112,12 @@ impl Check for Merkle {
     fn components(&self) -> serde_json::Value {
         serde_json::json!({"real": ["examples/fungible-merkle-airdrop (from source)", "merkle_distributor::*", "crypto::{merkle::Verifier, hashable, sha256}", "fungible Base token"], "stub": ["reference tree builder in the harness (hash primitive = host sha256)"]})
     }
+    fn dup_ok(&self, _s: &Step) -> bool {
+        true
+    }
+    fn reorder_ok(&self) -> bool {
+        true
+    }
     fn generate(&self, rng: &mut Rng, tier: Tier) -> (Cfg, std::vec::Vec<Step>) {
         let n = match rng.below(6) { 0 => 1, 1 => 2, 2 => 3, _ => 1 + rng.below(if tier == Tier::Quick { 24 } else { 200 }) as usize };
         let cfg = Cfg { leaves: (0..n).map(|_| (rng.below(4) as usize, 1 + rng.below(1000) as u32)).collect(), funding_pct: if rng.chance(20) { 40 + rng.below(50) as u32 } else { 100 } };
